@@ -64,6 +64,12 @@ func (u *uploader) uploadReport(fname string) {
 // try to upload the report, 'true' if successful
 func (u *uploader) uploadReportContents(fname string, buf []byte) bool {
 	fdate := strings.TrimSuffix(filepath.Base(fname), ".json")
+	if len(fdate) < len(telemetry.DateOnly) {
+		// Not a report name (some other .json file in the local directory);
+		// slicing below would panic and abort the whole run.
+		u.logger.Printf("Report name %q is too short to contain a date, skipping", filepath.Base(fname))
+		return false
+	}
 	fdate = fdate[len(fdate)-len(telemetry.DateOnly):]
 
 	newname := filepath.Join(u.dir.UploadDir(), fdate+".json")
